@@ -17,6 +17,7 @@ CHECKS = {
     "C11": ("c11", False),
     "C09": ("c09", False),
     "C10": ("c10", False),
+    "C17": ("c17", False),
 }
 
 
